@@ -195,6 +195,114 @@ pub fn gen_layout(rng: &mut Rng, o: &LayoutOpts) -> Layout {
   Layout { mappings }
 }
 
+/// Wide shapes: every dimension of a layout that is small in the other generators is large here,
+/// one at a time or together - many mappings ending in the same key (a fan over modifier subsets),
+/// long triggers with their sub-chords, long outputs, long Special key lists and absorbing lists,
+/// many mappings. Shipped layouts have hundreds of mappings but short triggers and outputs; a fixed
+/// capacity, a small-vector spill, a bit mask over positions or a quadratic scan with an early exit
+/// shows only beyond some size.
+pub fn gen_wide_layout(rng: &mut Rng, o: &LayoutOpts) -> Layout {
+  let modpool: &[KeyCode] = &[LEFTSHIFT, RIGHTSHIFT, LEFTCTRL, RIGHTCTRL, LEFTALT, RIGHTALT, LEFTMETA, RIGHTMETA, CAPSLOCK, TAB];
+  let actpool: &[KeyCode] = &[A, B, C, D, E, F, G, H, I, J, K, L, M, N, X, Y, Z, F13, F14, F15, F16];
+  let mut mappings: Vec<Mapping> = vec![];
+  let pick_repeat = |rng: &mut Rng, long: bool| -> Repeat {
+    if o.norepeat && rng.chance(1, 4) { Repeat::Disabled }
+    else if o.special && rng.chance(1, 3) {
+      let mut keys = vec![];
+      let nk = if long { rng.range(4, 12) } else { rng.below(3) };
+      let mut guard = 0;
+      while keys.len() < nk && guard < 100 { guard += 1; let k = if rng.chance(1, 3) { rng.pick(modpool) } else { rng.pick(actpool) }; uniq_push(&mut keys, k); }
+      Repeat::Special { keys, delay_ms: 100 + rng.below(100) as i32, interval_ms: 10 + rng.below(50) as i32 }
+    } else { Repeat::Normal }
+  };
+  let small_out = |rng: &mut Rng| -> Vec<KeyCode> {
+    let mut to = vec![];
+    match rng.below(6) { 0 => {}, 1 => { to.push(rng.pick(&modpool[..8])); } 2 => { to.push(rng.pick(&modpool[..8])); uniq_push(&mut to, rng.pick(actpool)); } _ => { to.push(rng.pick(actpool)); } }
+    to
+  };
+  let shapes = 1 + rng.below(2);
+  for _ in 0..shapes {
+    match rng.below(5) {
+      0 => {
+        // fan: one or two final keys, 9-40 mappings over distinct subsets of 4-6 chord keys
+        let nm = rng.range(4, 6);
+        let mut mods: Vec<KeyCode> = vec![];
+        while mods.len() < nm { let k = rng.pick(modpool); uniq_push(&mut mods, k); }
+        let f = rng.pick(actpool);
+        let want = rng.range(9, 40);
+        let mut seen: Vec<u32> = vec![];
+        let mut guard = 0;
+        while seen.len() < want && guard < 400 {
+          guard += 1;
+          let mask = rng.below(1usize << nm) as u32;
+          if seen.contains(&mask) { continue; }
+          seen.push(mask);
+          let mut from: Vec<KeyCode> = vec![];
+          for (i, k) in mods.iter().enumerate() { if mask & (1 << i) != 0 { from.push(*k); } }
+          if rng.chance(1, 3) { let n = from.len(); if n > 1 { let i = rng.below(n); let j = rng.below(n); from.swap(i, j); } }
+          let absorbing: Vec<KeyCode> = if o.absorbing && rng.chance(1, 4) { from.iter().filter(|_| rng.chance(1, 2)).cloned().collect() } else { vec![] };
+          from.push(f);
+          mappings.push(Mapping { from, to: small_out(rng), repeat: pick_repeat(rng, false), absorbing });
+        }
+      }
+      1 => {
+        // a long trigger (5-10 keys) and some of its sub-chords and prefixes
+        let n = rng.range(5, 10);
+        let mut from: Vec<KeyCode> = vec![];
+        let mut guard = 0;
+        while from.len() < n && guard < 200 { guard += 1; let k = if rng.chance(2, 3) { rng.pick(modpool) } else { rng.pick(actpool) }; uniq_push(&mut from, k); }
+        for _ in 0..rng.below(4) {
+          let cut = rng.range(1, from.len() - 1);
+          let mut sub: Vec<KeyCode> = from[..cut].to_vec();
+          if rng.chance(1, 2) { uniq_push(&mut sub, *from.last().unwrap()); }
+          mappings.push(Mapping { from: sub, to: small_out(rng), repeat: pick_repeat(rng, false), absorbing: vec![] });
+        }
+        let absorbing: Vec<KeyCode> = if o.absorbing && rng.chance(1, 2) { from[..from.len() - 1].iter().filter(|_| rng.chance(2, 3)).cloned().collect() } else { vec![] };
+        mappings.push(Mapping { from, to: small_out(rng), repeat: pick_repeat(rng, false), absorbing });
+      }
+      2 => {
+        // long outputs (5-14 keys: modifiers, then keys; now and then mixed)
+        for _ in 0..rng.range(1, 3) {
+          let mut from: Vec<KeyCode> = vec![];
+          for _ in 0..rng.below(3) { uniq_push(&mut from, rng.pick(modpool)); }
+          let mut guard = 0;
+          loop { guard += 1; let k = rng.pick(actpool); if !from.contains(&k) || guard > 50 { uniq_push(&mut from, k); break; } }
+          let n = rng.range(5, 14);
+          let mut to: Vec<KeyCode> = vec![];
+          let nmods = rng.below(5);
+          let mut guard = 0;
+          while to.len() < nmods && guard < 100 { guard += 1; uniq_push(&mut to, rng.pick(&modpool[..8])); }
+          while to.len() < n && guard < 300 { guard += 1; let k = if rng.chance(1, 8) { rng.pick(&modpool[..8]) } else { rng.pick(actpool) }; uniq_push(&mut to, k); }
+          let absorbing: Vec<KeyCode> = if o.absorbing && from.len() > 1 && rng.chance(1, 3) { vec![from[0]] } else { vec![] };
+          mappings.push(Mapping { from, to, repeat: pick_repeat(rng, false), absorbing });
+        }
+      }
+      3 => {
+        // long Special key lists and long absorbing lists
+        for _ in 0..rng.range(1, 3) {
+          let mut from: Vec<KeyCode> = vec![];
+          let nm = rng.range(1, 6);
+          let mut guard = 0;
+          while from.len() < nm && guard < 100 { guard += 1; uniq_push(&mut from, rng.pick(modpool)); }
+          loop { let k = rng.pick(actpool); if !from.contains(&k) { from.push(k); break; } }
+          let absorbing: Vec<KeyCode> = if o.absorbing { from[..from.len() - 1].iter().filter(|_| rng.chance(3, 4)).cloned().collect() } else { vec![] };
+          let repeat = if o.special { let r = pick_repeat(rng, true); r } else { pick_repeat(rng, false) };
+          mappings.push(Mapping { from, to: small_out(rng), repeat, absorbing });
+        }
+      }
+      _ => {
+        // many small mappings (20-60)
+        let mut o2 = o.clone(); o2.max_map = rng.range(20, 60); o2.big = true; o2.dense = false;
+        let l = gen_layout(rng, &o2);
+        mappings.extend(l.mappings);
+      }
+    }
+  }
+  // shuffle lightly: swap a few positions so that list order and construction order differ
+  for _ in 0..rng.below(4) { if mappings.len() > 1 { let i = rng.below(mappings.len()); let j = rng.below(mappings.len()); mappings.swap(i, j); } }
+  Layout { mappings }
+}
+
 /// Variant with distinguishable outputs: mapping i's output ends in its own key DIST[i]
 /// (or is empty / modifiers only, now and then).
 pub fn gen_dist_layout(rng: &mut Rng, o: &LayoutOpts) -> Layout {
@@ -391,7 +499,7 @@ pub struct HistOpts {
 }
 
 #[derive(Default, Clone, Debug)]
-pub struct GenStats { pub renamed: u64, pub dup: u64, pub spurious: u64, pub drop: u64, pub resets: u64, pub unseen: u64, pub intent_steps: u64, pub biased: u64 }
+pub struct GenStats { pub renamed: u64, pub dup: u64, pub spurious: u64, pub drop: u64, pub resets: u64, pub unseen: u64, pub intent_steps: u64, pub biased: u64, pub wide: u64 }
 
 struct Intent { mapping: usize, next: usize, releasing: bool }
 
